@@ -120,6 +120,11 @@ def small_alphabet():
     ops.append(("assign_mol", "A", "molA"))
     ops.append(("assign_mol", "C", "molC"))
     ops.append(("set_mol_map", {"A": 1, "B": 2}, False, True))
+    # sides as (label, count) pair lists: repeated labels accumulate, non-positive entries are ignored on their own
+    ops.append(("add_pairs", [("A", 2), ("B", 1), ("A", 0)], [("C", 1)], None, None))
+    ops.append(("add_pairs", [("A", 1), ("A", 2)], [("B", -1), ("B", 1), "C"], None, "x"))
+    # annotation table keyed by species and by reaction ids alike (non-strict: unknown keys are skipped)
+    ops.append(("set_mol_map", {"A": 5, "r_1": 6, "x": 7, "Q": 8}, False, False))
     return ops
 
 
@@ -136,6 +141,14 @@ def random_op(rng, species, rules, live_ids):
         else:
             eid = None
         return ("add", sd(), sd(), rule, eid)
+    if k < 0.43:
+        def pl():
+            out = []
+            for _ in range(rng.choice([1, 2, 3, 4])):
+                sp_ = rng.choice(species)
+                out.append(sp_ if rng.random() < 0.15 else (sp_, rng.choice([1, 1, 2, 3, 0, -1])))
+            return out
+        return ("add_pairs", pl(), pl() if rng.random() < 0.85 else [], rng.choice(rules + [None]), None)
     if k < 0.47:
         a = " + ".join(rng.choice(["", "2", "3 ", "10"]) + s for s in rng.sample(species, rng.randint(1, 2)))
         b = " + ".join(rng.choice(["", "2", "11"]) + s for s in rng.sample(species, rng.randint(0, 2))) or "∅"
@@ -152,7 +165,10 @@ def random_op(rng, species, rules, live_ids):
         return ("copy",)
     if k < 0.96:
         return ("assign_mol", rng.choice(species), f"m{rng.randint(0, 9)}")
-    return ("set_mol_map", {s: rng.randint(0, 9) for s in rng.sample(species, 2)},
+    keys = rng.sample(species, 2)
+    if rng.random() < 0.5:
+        keys += rng.sample(sorted(live_ids) + ["r_1", "x", "Q"], 2)   # reaction ids / absent names used as keys
+    return ("set_mol_map", {s: rng.randint(0, 9) for s in keys},
             rng.random() < 0.5, rng.random() < 0.5)
 
 
@@ -232,6 +248,10 @@ def apply_real(H, op):
                 b = [s for s, c in b.items() for _ in range(c)]
             e = H.add_rxn(a, b, rule=op[3], edge_id=op[4])
             return ("ok", e.id)
+        if k == "add_pairs":
+            e = H.add_rxn([tuple(x) if isinstance(x, (list, tuple)) else x for x in op[1]],
+                          [tuple(x) if isinstance(x, (list, tuple)) else x for x in op[2]], rule=op[3], edge_id=op[4])
+            return ("ok", e.id)
         if k == "add_str":
             e = H.add_rxn_from_str(op[1], rule=op[2])
             return ("ok", e.id)
@@ -254,6 +274,15 @@ def apply_model(M, op):
     k = op[0]
     if k == "add":
         return M.add(dict(op[1]), dict(op[2]), op[3], op[4])
+    if k == "add_pairs":
+        def acc(items):
+            out = {}
+            for it in items:
+                lab, c = (it[0], int(it[1])) if isinstance(it, (list, tuple)) else (it, 1)
+                if c > 0:
+                    out[lab] = out.get(lab, 0) + c
+            return out
+        return M.add(acc(op[1]), acc(op[2]), op[3], op[4])
     if k == "add_str":
         return M.add_str(op[1], op[2])
     if k == "remove_rxn":
@@ -310,11 +339,11 @@ def run_sequence(ctx, ops):
                 return (f"{op} raised {rr[1]} but changed the observable state", step)
         if rr[0] != mr[0] and not ambiguous:
             return (f"{op}: store -> {rr}, model -> {mr}", step)
-        if rr[0] == "ok" and op[0] in ("add", "add_str"):
+        if rr[0] == "ok" and op[0] in ("add", "add_str", "add_pairs"):
             mutated += 1
             if rr[1] in live_before:
                 return (f"{op}: returned id {rr[1]!r} was already live (two reactions under one id)", step)
-            if op[0] == "add" and op[4] is not None:
+            if op[0] in ("add", "add_pairs") and op[4] is not None:
                 caller_ids.add(op[4])
             elif caller_ids:
                 ctx.count("generated_id_after_caller_id")
